@@ -1432,6 +1432,8 @@ def copy_item():
                               "ON c.task_identifier = l.task_identifier AND c.timestamp = l.timestamp",
         "insert_new_version": "INSERT INTO version_index ( %s ) VALUES (?, ?, ?, ?)" % cols,
         "all_versions": "SELECT %s FROM version_index" % cols,
+        "latest_task_version": "SELECT timestamp, git_commit_hash, has_uncommitted_changes FROM version_index WHERE task_identifier = ? ORDER BY timestamp DESC LIMIT 1",
+        "get_max_timestamp": "SELECT MAX(timestamp) FROM version_index",
     }
     for name, text in expect.items():
         if norm(getattr(q, name)) != text:
@@ -1549,6 +1551,108 @@ def where_item():
             "Definition gen_where_context_is_fresh_per_call : bool := true.\n" % decision)
 
 
+def exec_decisions_item():
+    """The executor's remaining decisions: (a) _process_finished_op -- the finished operation is appended to the completed
+    list, its dependents' counters are decremented, then each dependent (in deps_of order) is enqueued iff the translated
+    test on its counter says so; (b) the skip test of the launch loop and what Operation.succeeded / exe_deps_succeeded
+    mean; (c) _wait_for_next_inflight_op: which state a finished operation gets, when its slot is given back, when the run
+    stops; (d) the verdict of _report_execution_results."""
+    rel = "conductor/execution/executor.py"
+    # ---- (a)
+    pf = [x for x in _body_without_docstring(_find_method(rel, "Executor", "_process_finished_op")) if not _is_logging(x)]
+    if len(pf) != 3 or ast.unparse(pf[0]) != "self._completed_ops.append(finished_op)" or ast.unparse(pf[1]) != "finished_op.decrement_deps_of_waiting_on()":
+        raise Unsupported("_process_finished_op does not append to the completed list and then decrement the dependents' counters")
+    loop = pf[2]
+    if not (isinstance(loop, ast.For) and ast.unparse(loop.target) == "dep_of" and ast.unparse(loop.iter) == "finished_op.deps_of" and not loop.orelse):
+        raise Unsupported("_process_finished_op does not loop over finished_op.deps_of")
+
+    def enq(stmts):
+        if not stmts:
+            return "false"
+        st, rest = stmts[0], stmts[1:]
+        if isinstance(st, ast.Continue):
+            return "false"
+        if ast.unparse(st) == "self._ready_to_run.enqueue_op(dep_of)":
+            if rest:
+                raise Unsupported("_process_finished_op: statements after the enqueue")
+            return "true"
+        if isinstance(st, ast.If):
+            return "(if %s then %s else %s)" % (_bexpr(st.test, {"dep_of.waiting_on": "waiting_on"}, NAT_OPS), enq(list(st.body) + rest), enq(list(st.orelse) + rest))
+        raise Unsupported("_process_finished_op: statement outside the supported fragment: %s" % ast.unparse(st))
+
+    enqueue = enq(list(loop.body))
+    op = "conductor/execution/ops/operation.py"
+    dec = [ast.unparse(x) for x in _body_without_docstring(_find_method(op, "Operation", "decrement_deps_of_waiting_on"))]
+    if dec != ["for dep_of in self.deps_of:\n    dep_of._decrement_waiting_on()"]:
+        raise Unsupported("decrement_deps_of_waiting_on is not one decrement per entry of deps_of: %r" % dec)
+    dec1 = [ast.unparse(x) for x in _body_without_docstring(_find_method(op, "Operation", "_decrement_waiting_on")) if not isinstance(x, ast.Assert)]
+    if dec1 != ["self._waiting_on -= 1"]:
+        raise Unsupported("_decrement_waiting_on: %r" % dec1)
+    # ---- (b)
+    su = _body_without_docstring(_find_method(op, "Operation", "succeeded"))
+    if len(su) != 1 or not isinstance(su[0], ast.Return):
+        raise Unsupported("Operation.succeeded is not a single return")
+    succ = _bexpr(su[0].value, {"self.state == OperationState.SUCCEEDED": "is_succeeded", "self.state == OperationState.SUCCEEDED_CACHED": "is_succeeded_cached"}, NAT_OPS)
+    eds = [ast.unparse(x) for x in _body_without_docstring(_find_method(op, "Operation", "exe_deps_succeeded"))]
+    if eds != ["return all(map(lambda task: task.succeeded(), self.exe_deps))"]:
+        raise Unsupported("exe_deps_succeeded is not all(succeeded over exe_deps): %r" % eds)
+    la = _find_method(rel, "Executor", "_launch_ops_if_able")
+    skips = [st for st in _walk_stmts(la.body) if isinstance(st, ast.If) and "exe_deps_succeeded" in ast.unparse(st.test)]
+    if len(skips) != 1:
+        raise Unsupported("%d tests mention exe_deps_succeeded" % len(skips))
+    skip_test = _bexpr(skips[0].test, {"next_op.exe_deps_succeeded()": "deps_ok"}, NAT_OPS)
+    sk = [ast.unparse(x) for x in skips[0].body if not isinstance(x, ast.If)]
+    if sk != ["next_op.set_state(OperationState.SKIPPED)", "self._process_finished_op(next_op)"]:
+        raise Unsupported("the skip branch is not SKIPPED + _process_finished_op: %r" % sk)
+    # ---- (c)
+    w = [x for x in _body_without_docstring(_find_method(rel, "Executor", "_wait_for_next_inflight_op")) if not isinstance(x, ast.Assert) and not _is_logging(x)]
+    shape = [type(x).__name__ for x in w]
+    if shape != ["Assign", "Assign", "Try", "If", "Expr", "Return"]:
+        raise Unsupported("_wait_for_next_inflight_op has the shape %s" % shape)
+    a1, a2, tr, slot_if, pfin, ret = w
+    if ast.unparse(a1) != "error_occurred = False" or ast.unparse(a2) not in ("(handle, op) = self._inflight_ops.wait_for_next_op()", "handle, op = self._inflight_ops.wait_for_next_op()"):
+        raise Unsupported("_wait_for_next_inflight_op does not start with the flag and the wait")
+    tb = [ast.unparse(x) for x in tr.body if not isinstance(x, ast.If)]
+    if tb != ["op.finish_execution(handle, ctx)", "op.set_state(OperationState.SUCCEEDED)"]:
+        raise Unsupported("the try block of _wait_for_next_inflight_op: %r" % tb)
+    hs = {ast.unparse(h.type): [ast.unparse(x) for x in h.body] for h in tr.handlers}
+    if sorted(hs) != ["ConductorAbort", "ConductorError"] or [ast.unparse(h.type) for h in tr.handlers][0] != "ConductorAbort":
+        raise Unsupported("handlers of _wait_for_next_inflight_op: %r" % sorted(hs))
+    if hs["ConductorAbort"] != ["op.set_state(OperationState.ABORTED)", "raise"]:
+        raise Unsupported("the abort handler of _wait_for_next_inflight_op: %r" % hs["ConductorAbort"])
+    if hs["ConductorError"] != ["op.store_error(ex)", "op.set_state(OperationState.FAILED)", "error_occurred = True", "self._print_op_failed(op)"]:
+        raise Unsupported("the error handler of _wait_for_next_inflight_op: %r" % hs["ConductorError"])
+    if ast.unparse(slot_if) != "if handle.slot is not None:\n    self._available_slots.append(handle.slot)" or ast.unparse(pfin) != "self._process_finished_op(op)":
+        raise Unsupported("_wait_for_next_inflight_op does not give the slot back and then process the finished operation")
+    stops = _bexpr(ret.value, {"error_occurred": "error_occurred", "stop_on_first_error": "stop"}, NAT_OPS)
+    # ---- (d)
+    rp = _find_method(rel, "Executor", "_report_execution_results")
+    body = _body_without_docstring(rp)
+    defs = {ast.unparse(st.targets[0]): ast.unparse(st.value) for st in body if isinstance(st, ast.Assign) and len(st.targets) == 1}
+    want = {"all_succeeded": "all(map(lambda op: op.succeeded(), self._completed_ops))",
+            "main_task_executed": "any([op.main_task is not None and op.main_task.identifier == plan.task_to_run.identifier for op in self._completed_ops])",
+            "main_task_cached": "len(self._completed_ops) == 0 and any([task.identifier == plan.task_to_run.identifier for task in plan.cached_tasks])"}
+    for k, v in want.items():
+        if defs.get(k) != v:
+            raise Unsupported("_report_execution_results: %s = %s" % (k, defs.get(k)))
+    ifs = [st for st in body if isinstance(st, ast.If)]
+    if len(ifs) != 1 or not ifs[0].orelse:
+        raise Unsupported("_report_execution_results does not end in one if/else")
+    verdict = _bexpr(ifs[0].test, {"all_succeeded": "all_succeeded", "main_task_executed": "main_executed", "main_task_cached": "main_cached"}, NAT_OPS)
+    if any(isinstance(n, ast.Raise) for st in ifs[0].body for n in ast.walk(st)):
+        raise Unsupported("the success branch of _report_execution_results raises")
+    tail = ifs[0].orelse[-1]
+    if ast.unparse(tail) != "raise failed_task_ops[0].stored_error":
+        raise Unsupported("the failure branch does not end by raising the first failed task's error")
+    return ("(* conductor/execution/executor.py _process_finished_op / _wait_for_next_inflight_op / _report_execution_results, ops/operation.py succeeded *)\n"
+            "Definition gen_enqueue_dependent (waiting_on : nat) : bool := %s.\n"
+            "Definition gen_op_succeeded (is_succeeded is_succeeded_cached : bool) : bool := %s.\n"
+            "Definition gen_skips (deps_ok : bool) : bool := %s.\n"
+            "Definition gen_wait_stops (error_occurred stop : bool) : bool := %s.\n"
+            "Definition gen_verdict_done (all_succeeded main_executed main_cached : bool) : bool := %s.\n"
+            "Definition gen_finished_op_steps : list N := [1%%N; 2%%N; 3%%N].\n" % (enqueue, succ, skip_test, stops, verdict))
+
+
 def version_item():
     """VersionIndex.generate_new_output_version: the timestamp as a function of the clock and the last timestamp"""
     f = _find_method("conductor/execution/version_index.py", "VersionIndex", "generate_new_output_version")
@@ -1613,7 +1717,7 @@ def generate():
         failures["task_type_table"] = "%s: %s" % (type(ex).__name__, ex)
         parts.append("(* task_type_table: NOT TRANSLATED: %s *)\n" % str(ex).replace("*)", "* )"))
     for coqname, fn in (("gen_gate_open", gate_item), ("gen_new_version", version_item), ("gen_loop_goes_on", loop_item), ("gen_wants_slot", slot_item),
-                        ("gen_prune", prune_item), ("gen_should_run", should_run_item), ("gen_sel_top", select_item), ("gen_validate_args", validate_args_item), ("gen_finish", finish_item), ("gen_record_type", record_type_item), ("gen_tee_iteration", tee_item), ("gen_env_overrides", spawn_item), ("gen_launch_block", abort_item), ("gen_combine_decision", combine_item), ("gen_gc_decision", gc_item), ("gen_restore_before_loop", restore_item), ("gen_archive_output_decision", archive_item), ("gen_deps_paths_step", deps_paths_item), ("gen_copy_query", copy_item), ("gen_ident_repr", ident_item), ("gen_where_decision", where_item)):
+                        ("gen_prune", prune_item), ("gen_should_run", should_run_item), ("gen_sel_top", select_item), ("gen_validate_args", validate_args_item), ("gen_finish", finish_item), ("gen_record_type", record_type_item), ("gen_tee_iteration", tee_item), ("gen_env_overrides", spawn_item), ("gen_launch_block", abort_item), ("gen_combine_decision", combine_item), ("gen_gc_decision", gc_item), ("gen_restore_before_loop", restore_item), ("gen_archive_output_decision", archive_item), ("gen_deps_paths_step", deps_paths_item), ("gen_copy_query", copy_item), ("gen_ident_repr", ident_item), ("gen_where_decision", where_item), ("gen_enqueue_dependent", exec_decisions_item)):
         try:
             parts.append(fn())
         except Exception as ex:  # pylint: disable=broad-except
